@@ -115,7 +115,12 @@ pub fn prim_upgrade(wk: &Weak<Node>, target: Option<Oid>, top_level: bool) -> Op
             let o = &w.objs[t as usize];
             let box_live = o.box_addr != 0 && alloc::block_at(o.box_addr).map_or(false, |b| b.live) && o.in_box;
             let snap = if box_live { Some(unsafe { verif::object_snapshot_at(o.box_addr) }) } else { None };
-            (o.dropped, o.moved_out, o.uninit || o.never_init, o.in_box, w.shadow_strong(t), o.tainted, snap)
+            // A callback that runs while an injected panic is still unwinding (drop glue of the unwound
+            // frames) sees the state the caught panic will leave: an object that is not reachable from
+            // the program's handles may already belong to an abandoned destruction batch, exactly like
+            // the objects tainted when the panic is caught (C08 leaves that answer open).
+            let tainted = o.tainted || (w.panicked_this_call && std::thread::panicking() && !w.reach(None).contains(&t));
+            (o.dropped, o.moved_out, o.uninit || o.never_init, o.in_box, w.shadow_strong(t), tainted, snap)
         })
     });
     let flags = verif::state_flags().unwrap_or((false, false, false));
@@ -142,6 +147,7 @@ pub fn prim_upgrade(wk: &Weak<Node>, target: Option<Oid>, top_level: bool) -> Op
             }
             (Some(cc), Some(t), Some((dropped, moved, uninit, in_box, _strong, _tainted, _))) => {
                 w.stats.upgrades_some += 1;
+                w.objs[t as usize].upgraded_call = w.call;
                 buf_leave(t);
                 let snap = verif::object_snapshot(cc);
                 let o = &w.objs[t as usize];
